@@ -3,13 +3,24 @@
    the leniency the property names at the level where it lives -- padded varints up to 10 bytes for values
    and 5 for keys and lengths are read as their value; packed and unpacked arrival are both taken for
    every packable type whatever the declared flag -- plus the canonical case as a whole (C01).
-   NOT proved: independence of the result from the order in which different fields arrive (a commutation
-   property of parse_member); that part of the property rests on the reference tie: shuffled / padded /
-   repacked / mixed encodings produced by the Python reference encoder, parsed by protobuf-c, by the
-   extracted model and by libprotobuf, results compared.  Hence the theorem names ending in _partial. *)
+   Order independence (Proofs/Commute.v, Proofs/Reorder.v, Proofs/PrefixStable.v, Proofs/Records.v): a message
+   given as a concatenation of wire records parses to the same result under every reordering that swaps
+   adjacent INDEPENDENT records -- records of different fields that do not share a oneof, or a known and an
+   unknown field.  (The relative order of the occurrences of one field, of the members of one oneof and of
+   the unknown fields is what carries meaning: last one wins / concatenation / merge / retained order; an
+   example shows that swapping two occurrences of one field does change the result.)  A record is a byte
+   string the scanner reads as exactly one member, whatever follows it and whatever the lookup cache holds
+   (scan_one_app, scan_one_factor): padded keys, padded lengths, padded varints, packed or unpacked
+   arrival are all records.
+   NOT proved as one statement: "every valid encoding of a value" needs a specification of all valid
+   encodings of a value (the reference's reading of them); the pieces above are what that statement is made
+   of, and the whole is decided against libprotobuf by the check: shuffled / padded / repacked / mixed /
+   split encodings produced by the Python reference encoder, parsed by protobuf-c, by the extracted model and
+   by libprotobuf, results compared.  Hence some theorem names ending in _partial. *)
 From Coq Require Import ZArith List Bool.
 From PBC Require Import Base.CInt Gen.LeafC Spec.Wire Impl.Desc Impl.Mem Impl.Enc Impl.Pack Impl.Unpack Impl.Canon
-     Proofs.LeafDec Proofs.MsgRT4 Proofs.Merge.
+     Proofs.LeafDec Proofs.MsgRT4 Proofs.Merge Proofs.Commute Proofs.Reorder Proofs.PrefixStable Proofs.Records Proofs.Examples.
+From PBC Require Proofs.LeafSafe Proofs.Required.
 Import ListNotations.
 Local Open Scope Z_scope.
 
@@ -76,3 +87,55 @@ Proof.
   exact (proj1 (roundtrip_canonical E EO m C (S (length b)) b Hp Hl (Nat.lt_succ_diag_r _))).
 Qed.
 Print Assumptions C04_canonical_encoding_partial.
+
+(* ---- order independence *)
+(* one parsing step commutes with another on a different field / oneof / unknown-vs-known *)
+Theorem C04_parse_steps_commute : forall E usub md a b m, slots_agree md m -> indep md a b ->
+  res_eq (bind (parse_member E usub md a m) (parse_member E usub md b))
+         (bind (parse_member E usub md b m) (parse_member E usub md a)).
+Proof. exact parse_member_comm. Qed.
+Print Assumptions C04_parse_steps_commute.
+
+(* the scanner reads a member the same way whatever follows it ... *)
+Theorem C04_scanning_ignores_what_follows : forall md st st' extra,
+  st_at st <> [] -> LeafSafe.bytes (st_at st) -> Mem.zlen (st_at st ++ extra) < 4294967296 ->
+  scan_one md st = Ok st' ->
+  scan_one md (set_at st (st_at st ++ extra)) = Ok (set_at st' (st_at st' ++ extra)).
+Proof. exact scan_one_app. Qed.
+Print Assumptions C04_scanning_ignores_what_follows.
+
+(* ... and whatever the one-entry lookup cache holds *)
+Theorem C04_scanning_ignores_the_lookup_cache : forall (E : env) md st, desc_ok (length E) md = true -> ScanCount.last_ok md st ->
+  st_at st <> [] -> LeafSafe.bytes (st_at st) ->
+  scan_one md st = (do r <- scan_pure md (st_at st); apply_member md st (fst r) (snd r)).
+Proof. exact scan_one_factor. Qed.
+Print Assumptions C04_scanning_ignores_the_lookup_cache.
+
+(* two inputs whose scanned members are reorderings of one another parse to the same result *)
+Theorem C04_result_depends_on_members_up_to_reordering : forall (E : env), env_ok E = true ->
+  forall d md data data' st st',
+  nth_error E d = Some md ->
+  LeafSafe.bytes data -> LeafSafe.bytes data' -> Mem.zlen data < 2147483648 -> length data' = length data ->
+  scan_loop (S (length data)) md (Required.st_init d md data) = Ok st ->
+  scan_loop (S (length data')) md (Required.st_init d md data') = Ok st' ->
+  reorder md (rev (st_members st)) (rev (st_members st')) ->
+  res_eq (unpack_top E d data) (unpack_top E d data').
+Proof. exact unpack_reorder. Qed.
+Print Assumptions C04_result_depends_on_members_up_to_reordering.
+
+(* on byte strings: any reordering of independent records *)
+Theorem C04_field_order_is_irrelevant : forall (E : env) d md prs prs', env_ok E = true -> nth_error E d = Some md ->
+  Forall (rec_ok md) prs -> rreorder md prs prs' -> Mem.zlen (concat (map fst prs)) < 2147483648 ->
+  res_eq (unpack_top E d (concat (map fst prs))) (unpack_top E d (concat (map fst prs'))).
+Proof. exact unpack_record_order_independent. Qed.
+Print Assumptions C04_field_order_is_irrelevant.
+
+(* non-vacuous: three concrete records (a varint field, a packed repeated field, an unknown field) in two orders give the
+   same accepted message; two occurrences of one field are not independent, and swapping them changes the result *)
+Theorem C04_field_order_nonvacuous :
+  (exists m, unpack_top ex_env 0 (concat (map fst [rec_a; rec_b; rec_u])) = Ok m /\
+             unpack_top ex_env 0 (concat (map fst [rec_b; rec_a; rec_u])) = Ok m) /\
+  ~ indep ex_md (snd rec_a) (snd rec_a) /\
+  unpack_top ex_env 0 ([8;150;1] ++ [8;7]) <> unpack_top ex_env 0 ([8;7] ++ [8;150;1]).
+Proof. exact (conj ex_swap_ab_accepted (conj same_field_not_indep same_field_order_matters)). Qed.
+Print Assumptions C04_field_order_nonvacuous.
